@@ -106,7 +106,7 @@ theorem lookup_insert (k k' v : Bytes) (vs : List (Bytes × Bytes)) :
 
 /-! ### the reader's loop invariant -/
 
-def KeyInv (k : Bytes) : Prop := Trimmed k ∧ 58 ∉ k ∧ 10 ∉ k
+def KeyInv (k : Bytes) : Prop := KeyOK k
 
 def ValInv (v : Bytes) : Prop :=
   ∃ t ls, v = build t ls ∧ Trimmed t ∧ 10 ∉ t ∧ ∀ l ∈ ls, ContOK l
@@ -227,9 +227,13 @@ theorem nextAux_inv (lines : List Bytes) (hlines : ∀ l ∈ lines, LineOK l) (p
             obtain ⟨hline, h58⟩ := cut_some hc
             obtain ⟨x, hx, hnx⟩ := hlines line (by simp)
             obtain ⟨h10k, v', rfl, h10v⟩ := lineOK_split (hline.symm.trans hx) hnx
+            by_cases hk35 : hasPrefix (trimSpace k) [35] = true
+            · simp [hk35] at h
+            rw [if_neg hk35] at h
             have hkey : KeyInv (trimSpace k) :=
               ⟨trimmed_trimSpace k, fun hm => h58 (mem_of_mem_trimSpace hm),
-                fun hm => h10k (mem_of_mem_trimSpace hm)⟩
+                fun hm => h10k (mem_of_mem_trimSpace hm),
+                fun e => hk35 ((hasPrefix_hash_iff _).mpr e)⟩
             have hval : ValInv (trimSpace (v' ++ [10])) :=
               ⟨trimSpace (v' ++ [10]), [], rfl, trimmed_trimSpace _,
                 not_mem_trimSpace_snoc_nl h10v, by simp⟩
@@ -326,44 +330,34 @@ theorem not_blankStart_of_spaceLen {t : Bytes} (h : spaceLen t = 0) :
     · have : 9 = c := by simpa using hc
       subst this; rw [spaceLen_tab] at h; exact absurd h (by decide)
 
-theorem partsOK_of_valInv {v : Bytes} (hv : ValInv v)
-    (hf : wfFirstLine ((valueLines v).headD []) = true) :
+theorem partsOK_of_valInv {v : Bytes} (hv : ValInv v) :
     PartsOK (foldParts v).1 (foldParts v).2 := by
   obtain ⟨t, ls, rfl, h1, h2, h3⟩ := hv
   have hvl := valueLines_build h2 (fun l hl => (h3 l hl).2.1)
   unfold foldParts
-  rw [hvl] at hf ⊢
+  rw [hvl]
   cases ls with
   | nil =>
     simp only [List.isEmpty_nil, if_true]
-    rw [if_neg (not_blankStart_of_spaceLen h1.1)]
+    rw [if_neg (Classical.not_not.mpr (trimLeftSpace_of_zero h1.1))]
     exact ⟨h1, h2, by simp⟩
   | cons first rest =>
-    simp only [List.isEmpty_cons, Bool.false_eq_true, if_false] at hf ⊢
+    simp only [List.isEmpty_cons, Bool.false_eq_true, if_false]
     by_cases he : t.isEmpty
-    · simp only [he, if_true] at hf ⊢
-      by_cases hb : hasPrefix first [32] = true ∨ hasPrefix first [9] = true
+    · simp only [he, if_true]
+      by_cases hb : trimLeftSpace first ≠ first
       · rw [if_pos hb]; exact ⟨trimmed_nil, by simp, h3⟩
       · rw [if_neg hb]
         have hc := h3 first (by simp)
-        refine ⟨⟨?_, spaceLenRev_of_trimRightSpace_fixed hc.1⟩, hc.2.1,
+        exact ⟨⟨spaceLen_of_trimLeftSpace_fixed (Classical.not_not.mp hb),
+          spaceLenRev_of_trimRightSpace_fixed hc.1⟩, hc.2.1,
           fun l hl => h3 l (List.mem_cons_of_mem _ hl)⟩
-        simp only [List.headD_cons, wfFirstLine, Bool.or_eq_true] at hf
-        rcases hf with (h | h) | h
-        · exact spaceLen_of_trimLeftSpace_fixed (of_decide_eq_true h)
-        · exact absurd (Or.inl h) hb
-        · exact absurd (Or.inr h) hb
     · simp only [he, Bool.false_eq_true, if_false]
-      rw [if_neg (not_blankStart_of_spaceLen h1.1)]
+      rw [if_neg (Classical.not_not.mpr (trimLeftSpace_of_zero h1.1))]
       exact ⟨h1, h2, h3⟩
 
-theorem rereadable_of_readInv {p : Paragraph} (h : ReadInv p)
-    (hh : ∀ k ∈ p.order, k.head? ≠ some 35)
-    (hf : ∀ k ∈ p.order, wfFirstLine ((valueLines (p.get k)).headD []) = true) :
-    Rereadable p :=
-  ⟨h.1, h.2.1, fun k hk =>
-    ⟨⟨(h.2.2 k hk).1.1, (h.2.2 k hk).1.2.1, (h.2.2 k hk).1.2.2, hh k hk⟩,
-      partsOK_of_valInv (h.2.2 k hk).2 (hf k hk)⟩⟩
+theorem rereadable_of_readInv {p : Paragraph} (h : ReadInv p) : Rereadable p :=
+  ⟨h.1, h.2.1, fun k hk => ⟨(h.2.2 k hk).1, partsOK_of_valInv (h.2.2 k hk).2⟩⟩
 
 theorem forall₂_map_of {α β : Type} {R : α → β → Prop} {f : α → β} (l : List α)
     (h : ∀ a ∈ l, R a (f a)) : List.Forall₂ R l (l.map f) := by
@@ -375,14 +369,12 @@ theorem forall₂_map_of {α β : Type} {R : α → β → Prop} {f : α → β}
 /-- write–read–write on reader output: the paragraphs come back up to one trailing
     newline per value, and the bytes do not change -/
 theorem stable_of_all {bs : Bytes} {ps : List Paragraph} (h : all bs = .ok ps)
-    (hl : ∀ p ∈ ps, ∀ k ∈ p.order, noLeadingEmptyLine (p.get k) = true)
-    (hh : ∀ p ∈ ps, ∀ k ∈ p.order, k.head? ≠ some 35)
-    (hf : ∀ p ∈ ps, ∀ k ∈ p.order, wfFirstLine ((valueLines (p.get k)).headD []) = true) :
+    (hl : ∀ p ∈ ps, ∀ k ∈ p.order, noLeadingEmptyLine (p.get k) = true) :
     all (writeAll ps) = .ok (ps.map reread) ∧
       List.Forall₂ (fun a b => sameUpToNewline a b = true) ps (ps.map reread) ∧
       writeAll (ps.map reread) = writeAll ps := by
   have hinv := all_inv h
-  refine ⟨all_writeAll ps (fun p hp => rereadable_of_readInv (hinv p hp) (hh p hp) (hf p hp)),
+  refine ⟨all_writeAll ps (fun p hp => rereadable_of_readInv (hinv p hp)),
     forall₂_map_of ps (fun p hp => sameUpToNewline_reread (hl p hp)), ?_⟩
   unfold writeAll
   rw [List.map_map]
